@@ -409,6 +409,26 @@ func (c *C) orderFlow(fn *ssa.Function, reset func(ssa.Instruction) bool, allEdg
 	}
 	edgeGen := func(from, to *ssa.BasicBlock, states Set) Set {
 		cond, neg, ok := branchCond(from, to)
+		// a branch on the boolean result of a first-party helper (for p.step() { }): what held inside the helper where
+		// it returned that truth value holds on this edge -- one path class per way the helper has of returning it
+		var helperStates []Set
+		if ok {
+			cv, cneg := cond, neg
+			for {
+				u, isNot := cv.(*ssa.UnOp)
+				if !isNot || u.Op != token.NOT {
+					break
+				}
+				cv, cneg = u.X, !cneg
+			}
+			if call, isCall := cv.(*ssa.Call); isCall && isBoolType(call.Type()) {
+				if cf := callee(call); cf != nil && cf != fn {
+					if hs := c.helperBoolStates(cf, !cneg, allEdges, vocab, 0); len(hs) > 0 && len(hs) <= 16 {
+						helperStates = hs
+					}
+				}
+			}
+		}
 		out := Set{}
 		for e := range states {
 			n := decState(e)
@@ -425,7 +445,20 @@ func (c *C) orderFlow(fn *ssa.Function, reset func(ssa.Instruction) bool, allEdg
 				}
 			}
 			if !infeasible {
-				out[encState(prune(n))] = true
+				if len(helperStates) == 0 {
+					out[encState(prune(n))] = true
+				} else {
+					for _, h := range helperStates {
+						m := Set{}
+						for f := range n {
+							m[f] = true
+						}
+						for f := range h {
+							m[f] = true
+						}
+						out[encState(prune(m))] = true
+					}
+				}
 			}
 		}
 		return collapse(out)
@@ -913,4 +946,83 @@ func recordKind(ci ssa.CallInstruction) string {
 		}
 	}
 	return ""
+}
+
+// helperBoolStates: the path states (exported facts only) with which first-party function fn returns the boolean `want`.
+func (c *C) helperBoolStates(fn *ssa.Function, want bool, allEdges bool, vocab []string, depth int) []Set {
+	if fn == nil || fn.Blocks == nil || fn.Pkg == nil || depth > 2 || summaryDepth >= 2 {
+		return nil
+	}
+	if !(firstParty(fn) || strings.HasPrefix(fn.Pkg.Pkg.Path(), "go.etcd.io/etcd/")) {
+		return nil
+	}
+	if fn.Signature.Results().Len() != 1 || !isBoolType(fn.Signature.Results().At(0).Type()) {
+		return nil
+	}
+	summaryDepth++
+	defer func() { summaryDepth-- }()
+	of := c.orderFlow(fn, nil, allEdges, vocab...)
+	export := func(st Set) Set {
+		exp := Set{}
+		for f := range st {
+			if strings.HasPrefix(f, "C|") || strings.HasPrefix(f, "W|") || strings.HasPrefix(f, "OK|") || strings.HasPrefix(f, "ERR|") || f == "SEND" {
+				exp[f] = true
+			}
+		}
+		return exp
+	}
+	seen := map[string]bool{}
+	var out []Set
+	add := func(s Set) {
+		k := encState(s)
+		if !seen[k] {
+			seen[k] = true
+			out = append(out, s)
+		}
+	}
+	for _, b := range fn.Blocks {
+		if len(b.Instrs) == 0 {
+			continue
+		}
+		ret, ok := b.Instrs[len(b.Instrs)-1].(*ssa.Return)
+		if !ok {
+			continue
+		}
+		states, live := of.States(ret)
+		if !live {
+			continue
+		}
+		for _, v := range retResults(ret)[0] {
+			if k, isC := v.(*ssa.Const); isC && k.Value != nil {
+				if (k.Value.ExactString() == "true") != want {
+					continue
+				}
+				for _, st := range states {
+					add(export(st))
+				}
+				continue
+			}
+			// return g(..): the ways g has of returning that value, behind what held here
+			if call, isCall := v.(*ssa.Call); isCall {
+				if g := callee(call); g != nil && g != fn {
+					if hs := c.helperBoolStates(g, want, allEdges, vocab, depth+1); len(hs) > 0 {
+						for _, st := range states {
+							for _, h := range hs {
+								n := export(st)
+								for f := range h {
+									n[f] = true
+								}
+								add(n)
+							}
+						}
+						continue
+					}
+				}
+			}
+			for _, st := range states {
+				add(export(st))
+			}
+		}
+	}
+	return out
 }
